@@ -147,6 +147,50 @@ fn program(t: &T, route: &str) -> String {
 
 const EXPECTED: &str = "true\nfalse\ntrue\nfalse\n";
 
+/// a value compared with itself, with a copy of itself and with an equal value built again: equal
+/// unless a float in it is not a number (`z / z` with z = 0.0), which is equal to nothing
+fn self_comparison_programs() -> Vec<(String, String, String)> {
+    let shapes: [(&str, &str, &str); 9] = [
+        ("float", "float64", "§"),
+        ("tuple", "(float64, int32)", "(§, 1)"),
+        ("tuple-float-last", "(string, float64)", "(\"s\", §)"),
+        ("nested-tuple", "((int32, float64), bool)", "((1, §), true)"),
+        ("struct", "Fl", "Fl { f: §, n: 1 }"),
+        ("generic-struct", "Gx[float64]", "Gx { v: § }"),
+        ("enum-payload", "En", "En::Has(§)"),
+        ("array", "[float64; 2]", "[1.5, §]"),
+        ("struct-in-tuple", "(Fl, int32)", "(Fl { f: §, n: 2 }, 3)"),
+    ];
+    let mut out = Vec::new();
+    for (sn, ty, build) in shapes {
+        for (vn, value, equal) in [("not-a-number", "nan()", false), ("a-number", "half()", true)] {
+            for route in ["direct", "through-a-generic-function", "in-a-closure"] {
+                let mk = build.replace('§', value);
+                let cmp = |a: &str, b: &str, op: &str| match route {
+                    "through-a-generic-function" => format!("{}(same({}, {}))", if op == "==" { "" } else { "!" }, a, b),
+                    _ => format!("{} {} {}", a, op, b),
+                };
+                let mut body = format!("    let t: {} = {};\n    let u: {} = t;\n    let w: {} = {};\n", ty, mk, ty, ty, mk);
+                let mut lines = String::new();
+                for (a, b) in [("t", "t"), ("t", "u"), ("t", "w")] {
+                    for op in ["==", "!="] {
+                        let e = cmp(a, b, op);
+                        if route == "in-a-closure" {
+                            body.push_str(&format!("    let c_{a}{b}{n} = || {e};\n    string_println(bool_to_string(c_{a}{b}{n}()));\n", a = a, b = b, n = if op == "==" { "e" } else { "n" }, e = e));
+                        } else {
+                            body.push_str(&format!("    string_println(bool_to_string({}));\n", e));
+                        }
+                        lines.push_str(if (op == "==") == equal { "true\n" } else { "false\n" });
+                    }
+                }
+                let text = format!("struct Fl {{ f: float64, n: int32 }}\nstruct Gx[T] {{ v: T }}\nenum En {{ Has(float64), Not }}\nfn nan() -> float64 {{ let z = 0.0; z / z }}\nfn half() -> float64 {{ 1.5 }}\nfn same[T](x: T, y: T) -> bool {{ x == y }}\nfn main() {{\n{}}}\n", body);
+                out.push((format!("shape={};value={};route={}", sn, vn, route), text, lines));
+            }
+        }
+    }
+    out
+}
+
 pub struct Equality;
 
 impl Family for Equality {
@@ -157,7 +201,7 @@ impl Family for Equality {
         &["C03", "C02", "C01", "C04"]
     }
     fn rule(&self) -> &'static str {
-        "every type built from the leaves {int32, string, Vec[int32], (int32) -> int32} with {tuple, struct, generic struct, enum, generic enum, array of 2} to depth 2 (172 types; thorough: depth 3, 1036 types) x {a == b / a != b written directly, through fn same[T](x: T, y: T)}; a is compared with a separately built equal value and with a different one. A type is comparable iff it contains no vector and no function. Oracle: comparable -> if accepted, the Go text passes the Go checker and prints true false true false (a rejection is tagged, not a violation); not comparable -> must be rejected (an acceptance is a C03 violation, and a C02 / C01 violation when the Go text is invalid / the run panics in the Go model, whose interface comparison follows the spec rule bound by 4 table snippets). non-trivial = types of depth >= 1; distinct = distinct (type, route)"
+        "every type built from the leaves {int32, string, Vec[int32], (int32) -> int32} with {tuple, struct, generic struct, enum, generic enum, array of 2} to depth 2 (172 types; thorough: depth 3, 1036 types) x {a == b / a != b written directly, through fn same[T](x: T, y: T)}; a is compared with a separately built equal value and with a different one. A type is comparable iff it contains no vector and no function. Oracle: comparable -> if accepted, the Go text passes the Go checker and prints true false true false (a rejection is tagged, not a violation); not comparable -> must be rejected (an acceptance is a C03 violation, and a C02 / C01 violation when the Go text is invalid / the run panics in the Go model, whose interface comparison follows the spec rule bound by 4 table snippets). plus 54 self-comparison programs: a value of 9 shapes holding a float that is a number / not a number, compared (== and !=) with itself, with a copy and with an equal value built again, directly, through the generic function and inside a closure: equal iff the float is a number. non-trivial = types of depth >= 1; distinct = distinct (type, route)"
     }
     fn cases(&self, tier: Tier) -> Box<dyn Iterator<Item = Value> + '_> {
         let depth = if tier == Tier::Quick { 2 } else { 3 };
@@ -168,10 +212,21 @@ impl Family for Equality {
                 v.push(json!({"type": i, "route": r, "depth": depth}));
             }
         }
+        for (i, _) in self_comparison_programs().iter().enumerate() {
+            v.push(json!({"self-comparison": i}));
+        }
         Box::new(v.into_iter())
     }
     fn run(&self, case: &Value, ctx: &mut Ctx) -> Report {
         let mut rep = Report::default();
+        if let Some(i) = case["self-comparison"].as_u64() {
+            let (name, text, expected) = self_comparison_programs()[i as usize].clone();
+            let site = format!("self-comparison;{}", name);
+            rep.nontrivial_key = Some(text.clone());
+            rep.outcome = Some(site.clone());
+            expect_text_program(ctx, &mut rep, "equality", case, &site, &text, &expected, &["C01"], &["C02"], &["C03"]);
+            return rep;
+        }
         let depth = case["depth"].as_u64().unwrap() as usize;
         let t = types(depth)[case["type"].as_u64().unwrap() as usize].clone();
         let route = case["route"].as_str().unwrap();
